@@ -4,7 +4,7 @@ from concurrent.futures import ThreadPoolExecutor
 from vlib import common as C
 
 LEVEL = "model_checking"
-CONFIGS = [("default", "", {}), ("purego", "purego", {})]
+CONFIGS = [("default", "", {}), ("purego", "purego", {}), ("noadx", "", {"GODEBUG": "cpu.adx=off,cpu.bmi2=off"})]   # the legacy assembly of fp25519 / fp448 / FourQ
 INTREE = ["sign/ed25519"]
 
 
